@@ -37,6 +37,7 @@ def strategy(tier):
                                    n_times=(4, 8), allow_time=False, catalogue=2))
         c["mode"] = mode
         c["polish"] = draw(st.integers(0, 2)) == 0
+        c["refit"] = draw(st.integers(0, 2)) == 0
         if mode == "truth":
             c["noise"] = 0.0
         m = c["model"]
@@ -221,6 +222,20 @@ def oracle(case, rec):
     if case["mode"] == "truth":
         if (np.abs(xhat - start) > 1e-4 * (1 + np.abs(start))).any():
             raise PropertyViolation(key + "/truth-not-fixed", "started at the generating parameters %s with noise-free data, fit moved to %s" % (start, xhat), case)
+    if case.get("refit") and not side and case["mode"] == "box":
+        # the user tightens the box (upper ends pulled half-way towards the start) and fits again from the same start on the
+        # same object: the answer must respect the NEW box
+        ub2 = np.where(np.isfinite(ub), start + 0.5 * (ub - start), ub)
+        try:
+            xhat2 = np.asarray(call(key + "/fit-again", case, obj.fit, start.copy(), list(lb), list(ub2)), float)
+        except PropertyViolation as v:
+            raise
+        rec.label("second-fit:same-start-tighter-box")
+        if not np.isfinite(xhat2).all() or (xhat2 < lb - 1e-12).any() or (xhat2 > ub2 + 1e-12).any():
+            raise PropertyViolation(key + "/second-fit-outside-box", "second fit returned %s, outside the tightened box lb=%s ub=%s" % (xhat2, lb, ub2), case)
+        c2 = _ref_cost_at(case, y, xhat2)
+        if c2 > c_start_ref + slack:
+            raise PropertyViolation(key + "/second-fit-worse-than-start", "second fit: reference cost %.12g exceeds the cost of the start %.12g" % (c2, c_start_ref), case)
     active = ((xhat - lb) < 1e-9).any() or ((ub - xhat) < 1e-9).any()
     near = (np.abs(start - lb) <= 0.1 * np.abs(start)).any() or (np.abs(ub - start) <= 0.1 * np.abs(start)).any()
     if active:
